@@ -5,12 +5,17 @@ from . import grids, ugrid
 CONVENTIONS = ['cf1d', 'cf2d', 'shoc_simple', 'shoc_standard', 'ugrid']
 
 
-SIZE_POLICY = {'large': False}
+import os as _os
+
+# Policies are mirrored in environment variables so that fresh interpreters started by a monitor (C11 / C16) regenerate
+# exactly the same datasets from the same specs.
+SIZE_POLICY = {'large': _os.environ.get('VMON_LARGE') == '1'}
 
 
 def set_large_sizes(flag=True):
     """Thorough tiers: every sixth dataset is drawn from a larger size range (grids to 14 x 14, meshes to ~150 faces)."""
     SIZE_POLICY['large'] = bool(flag)
+    _os.environ['VMON_LARGE'] = '1' if flag else '0'
 
 
 def make(rng, convention=None, **kw):
@@ -38,8 +43,9 @@ def make_dressed(rng, convention=None, dress=None, **kw):
     return m
 
 
-DECLARE_POLICY = {'x_first': False}
+DECLARE_POLICY = {'x_first': _os.environ.get('VMON_X_FIRST') == '1'}
 
 
 def set_declaration_order_varies(flag=True):
     DECLARE_POLICY['x_first'] = bool(flag)
+    _os.environ['VMON_X_FIRST'] = '1' if flag else '0'
